@@ -425,14 +425,28 @@ class Siblings(Sub):
             for args in tuples:
                 for order in ('fwd', 'rev'):
                     yield [gi, list(args), order]
+            # one long history per template: the same function on every argument tuple in turn (a memo keyed on something
+            # that does not identify the argument - its id(), its length, its first item - then answers for another one)
+            for ti in range(len(tmpls)):
+                yield [gi, ti, 'args-major']
+            yield [gi, None, 'everything']
+
+    def fmt(self, tmpl, args):
+        return tmpl.format(*[(a[1:] if isinstance(a, str) and a.startswith('={') else lit(a)) for a in args])
 
     def check(self, env, case):
         from . import zygote
         gi, args, order = case
-        tmpls = self.GROUPS[gi][0]
-        forms = [t.format(*[(a[1:] if isinstance(a, str) and a.startswith('={') else lit(a)) for a in args]) for t in tmpls]
-        if order == 'rev':
-            forms = forms[::-1]
+        tmpls, tuples = self.GROUPS[gi]
+        if order == 'args-major':
+            forms = [self.fmt(tmpls[args], a) for a in tuples]
+            forms = forms + forms[::-1]
+        elif order == 'everything':
+            forms = [self.fmt(t, a) for a in tuples for t in tmpls]
+        else:
+            forms = [self.fmt(t, args) for t in tmpls]
+            if order == 'rev':
+                forms = forms[::-1]
         env.nt()
         got = zygote.call('hxverif.pristine', 'run', {'formulas': forms})
         env.evals += len(forms)
@@ -444,7 +458,8 @@ class Siblings(Sub):
             env.note('same' if i else 'first')
             if got[i] != refs[f]:
                 return fail('%s gives %r when evaluated after %s in the same process; as the only evaluation of a fresh '
-                            'process it gives %r' % (f, got[i], ', '.join(forms[:i]) or 'nothing', refs[f]), refs[f], got[i])
+                            'process it gives %r' % (f, got[i], (('... ' if i > 8 else '') + ', '.join(forms[max(0, i - 8):i])) or 'nothing', refs[f]),
+                            refs[f], got[i])
         return None
 
 
